@@ -62,6 +62,8 @@ let () =
                     let who = body.[0] and k = int_of_string (String.sub body 1 (String.length body - 1)) in
                     if k < List.length !oids then run who (HAdd (pfx_of k, oid k))
                   | _ -> ());
+                 (* the update senders behind both tables pack and write what was queued: they only read *)
+                 run 'A' HFlush; run 'B' HFlush;
                  (* observables *)
                  let tab t =
                    let pfxs = List.sort_uniq compare (List.map (fun (k, _) -> int_of_n k) t.t_tbl) in
